@@ -36,14 +36,18 @@ MANIFEST = {
             'grammar_ok, with norm idempotent and print(norm c) = print c (printing is a fixed point from the first round trip); '
             'the same up to the fresh name for anonymous A/O/W/P components; rejection theorems (unbalanced braces, unknown '
             'type, too many fields, missing node, unknown/duplicate named parameter, value after named parameter); engineering '
-            'suffix values.  The grammar table and the suffix table are regenerated from lcapy/grammar.py and lcapy/valueparser.py on '
+            'suffix values; parse_namespace: for every line, parsing inside a namespace (.include file as name) equals parsing without '
+            'it and prefixing the namespace to the name and to every node; name_rejoin; for each open finding a *_refuted witness '
+            'that the corresponding hypothesis of parse_print cannot be dropped.  The grammar table and the suffix table are regenerated from lcapy/grammar.py and lcapy/valueparser.py on '
             'every run (the Coq model parses the grammar text itself) and grammar_ok is decided by vm_compute over the complete '
             'table.  The hand model is compared with the real code inside Coq on an enumeration of the whole grammar on every run, '
             'and a round-trip oracle runs on the real code alone.',
     'note': 'Trusted: Coq kernel/vm_compute; tools/tr_grammar.py (copies four string constants and one dict, plus three source '
-            'guards); the hand model coq/theory/ParserModel.v, validated against the real parser/printer on every run (exhaustive in '
+            'guards and the five literal separators of the writer, tied to the model by printer_constants_guard); the hand model '
+            'coq/theory/ParserModel.v (now including netlist files, Circuit(filename)/netfile_add and nested .include with the file system as a '
+            'parameter), validated against the real parser/printer on every run (exhaustive in '
             'grammar rules and optional-argument subsets, sampled in value/name/node/option shapes); component constructors (sympy '
-            'parsing of values) and .include are outside the model; ASCII only.  The hypotheses of parse_print (wf_cpt, decidable) '
+            'parsing of values) are outside the model; relative include paths / cwd lookup are not modelled; ASCII only.  The hypotheses of parse_print (wf_cpt, decidable) '
             'exclude exactly the input shapes listed as known findings; the run reports how many accepted inputs lie inside them and '
             'flags any real round-trip failure inside them.  That None and 0 mean the same to the constructors is checked by the '
             'oracle on the built one-ports, not proved.',
@@ -346,6 +350,39 @@ def gen_derive(rng, tier):
     return cases
 
 
+def gen_files(rules, rng, n, root):
+    """netlist FILES read through Circuit(filename) / netfile_add, with `.include file as name` (nested, repeated,
+    with the .sch fallback) and the include error shapes; returns cases and writes the files under root"""
+    cases = []
+    for k in range(n):
+        d = os.path.join(root, 'f%d' % k)
+        os.makedirs(d, exist_ok=True)
+        body = lambda m: [l for l in gen_netlists(rules, rng, 1)[0]['lines'] if not l.startswith('XXanon')][:m]
+        files = {}
+        sub2 = os.path.join(d, 'leaf.sch')
+        files[sub2] = body(4)
+        sub1 = os.path.join(d, 'mid.sch')
+        files[sub1] = body(3) + (['.include %s as c%d' % (sub2, k)] if k % 3 == 0 else []) + body(2)
+        top = os.path.join(d, 'top.sch')
+        kind = k % 8
+        inc1 = '.include %s as a' % sub1
+        inc2 = '.include   %s\tas  b_2 trailing words' % (sub2[:-4] if k % 2 else sub2)     # .sch fallback on odd k
+        if kind == 5:
+            inc2 = '.include %s' % sub2                        # no "as name": rejected
+        elif kind == 6:
+            inc2 = '.include %s as q' % os.path.join(d, 'missing')   # no such file
+        elif kind == 7:
+            inc2 = '... .include %s as as as z' % sub2        # name is the word after the FIRST " as "
+        files[top] = body(2) + [inc1] + body(2) + [inc2] + body(1)
+        if kind == 4:
+            files[top] = body(5)                               # plain file, no include
+        for path, lines in files.items():
+            with open(path, 'w') as f:
+                f.write('\n'.join(lines) + '\n')
+        cases.append({'file': top, 'files': files, 'tag': 'file'})
+    return cases
+
+
 FUZZ_ALPHABET = 'RRCVW12 {}"=;,.()?#x\tace_'
 
 
@@ -456,6 +493,11 @@ def case_term(i, c, r, suffixes):
         if 'error' in r:
             return '(%d%%N, obs_err G %s %d%%nat %s)' % (i, L, r['at'], ERR[r['error']])
         return '(%d%%N, obs_ok G %s %s %s %s)' % (i, L, clist(c_cpt(e) for e in r['elts']), clist(cs(p) for p in r['printed']), cs(r['str']))
+    if 'file' in c:
+        FS = clist('(%s, %s)' % (cs(pth), clist(cs(l) for l in ls)) for pth, ls in c['files'].items())
+        if 'error' in r:
+            return '(%d%%N, obs_file_err G %s %s %s)' % (i, FS, cs(c['file']), ERR[r['error']])
+        return '(%d%%N, obs_file G %s %s %s %s %s)' % (i, FS, cs(c['file']), clist(c_cpt(e) for e in r['elts']), clist(cs(p) for p in r['printed']), cs(r['str']))
     if 'vp' in c:
         return '(%d%%N, vres_eqb (value_parser meg_cut k_cut suffix_table %s) %s)' % (i, cs(c['vp']), decode_vp(c['vp'], r, suffixes))
     if 'opts' in c:
@@ -601,7 +643,7 @@ def grammar_obligations():
 def run(tier='quick', replay=None):
     res = core.Result(PID, tier)
     rng = random.Random(core.seed() * 104729 + 6)
-    core.ensure_theory(['ParserStr', 'ParserModel', 'ParserThm', 'ParserRoundTrip', 'ParserValue', 'ParserOpts', 'ParserCases'])
+    core.ensure_theory(['ParserStr', 'ParserModel', 'ParserThm', 'ParserRoundTrip', 'ParserValue', 'ParserOpts', 'ParserCases', 'ParserNamespace'])
     w = core.Work(PID)
     violations = []
     try:
@@ -645,6 +687,11 @@ def run(tier='quick', replay=None):
                 texts['C06_grammar.v'] = open(tpl).read()
                 w.write('C06_grammar.v', texts['C06_grammar.v'])
                 files.append('C06_grammar.v')
+            tplr = os.path.join(core.VERIF, 'coq', 'props', 'C06_refuted.v.tpl')
+            if os.path.exists(tplr):
+                texts['C06_refuted.v'] = open(tplr).read()
+                w.write('C06_refuted.v', texts['C06_refuted.v'])
+                files.append('C06_refuted.v')
             tplm = os.path.join(core.VERIF, 'coq', 'props', 'C06_meg.v.tpl')
             if os.path.exists(tplm):
                 texts['C06_meg.v'] = open(tplm).read()
@@ -678,13 +725,22 @@ def run(tier='quick', replay=None):
             rc = dict(replay.get('case') or {})
             if 'roundtrip' in rc:
                 rc['lines'] = rc.pop('roundtrip')
+            if 'roundtrip_file' in rc:
+                rc['file'] = rc.pop('roundtrip_file')
+            for pth, ls in (rc.get('files') or {}).items():
+                if os.path.abspath(pth).startswith(os.path.join(core.VERIF, '.work') + os.sep):
+                    os.makedirs(os.path.dirname(pth), exist_ok=True)
+                    with open(pth, 'w') as f:
+                        f.write('\n'.join(ls) + '\n')
             rc.setdefault('tag', 'replay')
-            cases = [rc] if rc.keys() & {'lines', 'vp', 'opts'} else []
+            cases = [rc] if rc.keys() & {'lines', 'vp', 'opts', 'file'} else []
         elif rules:
             cases += gen_enum(rules, rng, tier)
             cases += gen_netlists(rules, rng, 150 if tier == 'quick' else 3000)
             cases += gen_malformed(rules, rng, 600 if tier == 'quick' else 12000)
             cases += gen_vp(g.suffixes, rng)
+            os.makedirs(w.path('files'), exist_ok=True)
+            cases += gen_files(rules, rng, 40 if tier == 'quick' else 300, w.path('files'))
             # netlists produced by Lcapy's own rewrites and by network-to-netlist conversion
             dcs = gen_derive(rng, tier)
             nder = 0
@@ -708,7 +764,7 @@ def run(tier='quick', replay=None):
                 break
             if not comparable(c, r):
                 res.count('outside_model_' + tag)
-                if tag in ('enum', 'shape', 'netlist', 'kw0'):
+                if tag in ('enum', 'shape', 'netlist', 'kw0', 'file'):
                     # the enumeration is built from values every constructor accepts
                     res.disagreements.append({'case': c, 'lcapy': r, 'why': 'the real code raised outside the parser on an enumerated line'})
                 continue
@@ -762,8 +818,10 @@ def run(tier='quick', replay=None):
 
         phase['coq_cases'] = round(time.time() - tph, 1); tph = time.time()
         # 4. round-trip oracle (real code only)
-        oidx = [i for i, c in enumerate(cases) if 'lines' in c]
-        ocases = [{'roundtrip': cases[i]['lines'], 'tag': cases[i].get('tag'), 'rule': cases[i].get('rule'), 'spec': cases[i].get('spec', True)} for i in oidx]
+        oidx = [i for i, c in enumerate(cases) if 'lines' in c or 'file' in c]
+        ocases = [({'roundtrip_file': cases[i]['file'], 'files': cases[i]['files'], 'tag': 'file'} if 'file' in cases[i] else
+                   {'roundtrip': cases[i]['lines'], 'tag': cases[i].get('tag'), 'rule': cases[i].get('rule'), 'spec': cases[i].get('spec', True)})
+                  for i in oidx]
         oresults = core.run_impl('impl_parser.py', ocases) if ocases else []
         inside = set(dom_idx) - outside if gen_ok else set()
         for ci, c, r in zip(oidx, ocases, oresults):
